@@ -340,6 +340,16 @@ pub fn bounded_case(text: &str, tts: &[TT], cap: usize, twoval: bool) -> Vec<(St
     out
 }
 
+/// step budget of a long search: a generous multiple of what the construction needs (measured: 7 loop steps per
+/// model for k self-supporting statements, about 3 per statement for a negation cycle)
+pub fn long_budget(n: usize, selfloops: bool) -> u64 {
+    if selfloops {
+        16 * (1u64 << n.min(24))
+    } else {
+        2_000 + 200 * n as u64
+    }
+}
+
 /// one long search; the expected models follow from the construction named in `name`
 pub fn long_case(text: &str, n: usize, name: &str, h: usize, budget: u64, modes: &[bool], st: &mut St) -> Vec<(String, String)> {
     let mut out = vec![];
@@ -362,6 +372,7 @@ pub fn long_case(text: &str, n: usize, name: &str, h: usize, budget: u64, modes:
             let items: Vec<Vec<Term>> = r.try_iter().collect();
             (items, matches!(r.try_recv(), Err(crossbeam_channel::TryRecvError::Disconnected)))
         });
+        st.max_steps = st.max_steps.max(adf_bdd::verif::steps());
         adf_bdd::verif::set_budget(None);
         st.calls += 1;
         match res {
@@ -443,7 +454,7 @@ pub fn run_c05(run: &Run) {
     // two-valued models, the all-false one is the only stable one; negation cycles ac(s_i, neg(s_{i+1})) of even length
     // have exactly the two alternating models (both stable), of odd length none - with 64 and more statements left
     // undecided by the grounded interpretation
-    let mut long_jobs: Vec<(String, usize, usize, Vec<bool>, std::thread::JoinHandle<Vec<(String, String)>>)> = vec![];
+    let mut long_jobs: Vec<(String, usize, usize, Vec<bool>, std::thread::JoinHandle<(Vec<(String, String)>, u64)>)> = vec![];
     {
         let mut cases: Vec<(String, usize, bool, usize, Vec<bool>)> = vec![]; // name, n, selfloops, heuristic, modes
         for h in 0..3 {
@@ -467,7 +478,8 @@ pub fn run_c05(run: &Run) {
                 let conds: Vec<Fm> = if selfloops { (0..n).map(Fm::Atom).collect() } else { (0..n).map(|i| Fm::not(Fm::Atom((i + 1) % n))).collect() };
                 let l = crate::large::LargeAdf { labels: labels.clone(), written: labels, conds, shape: "long" };
                 let mut st = St::default();
-                long_case(&l.text(None, ("", "", "")), n, &nm, h, (400 * (1u64 << n.min(20))).max(2_000_000), &md, &mut st)
+                let found = long_case(&l.text(None, ("", "", "")), n, &nm, h, long_budget(n, selfloops), &md, &mut st);
+                (found, st.max_steps)
             });
             long_jobs.push((name, n, h, modes, handle));
         }
@@ -534,7 +546,7 @@ pub fn run_c05(run: &Run) {
     let mut builtin_sources = standard_sources(run, false);
     if quick {
         // the residue class of A(3) is left to the thorough tier (which runs all of A(3))
-        builtin_sources.retain(|s| !s.name().starts_with("S_") && !s.name().starts_with("F(4,2) class") && !matches!(s, Source::Ring(..) | Source::Sparse(..)));
+        builtin_sources.retain(|s| !s.name().starts_with("A(3) class") && !s.name().starts_with("F(4,2) class") && !matches!(s, Source::Tern(5, ..)) && !matches!(s, Source::Ring(..) | Source::Sparse(..)));
         builtin_sources.push(Source::Ring(6, run.seed % 64, 64));
         builtin_sources.push(Source::Ring(7, run.seed % 2048, 2048));
         builtin_sources.push(Source::Ring(8, run.seed % 32768, 32768));
@@ -675,10 +687,12 @@ pub fn run_c05(run: &Run) {
         let t0 = std::time::Instant::now();
         let total = long_jobs.len() as u64;
         let mut runs = 0u64;
+        let mut long_steps: Vec<(String, u64)> = vec![];
         for (name, _n, h, modes, handle) in long_jobs {
             runs += modes.len() as u64;
             match handle.join() {
-                Ok(found) => {
+                Ok((found, steps)) => {
+                    long_steps.push((name.clone(), steps));
                     for (kind, msg) in found {
                         run.violation(&kind, format!("{} on {}", msg, name), json!({"type": "long", "name": name, "heuristic": h, "modes": modes}));
                     }
@@ -686,6 +700,9 @@ pub fn run_c05(run: &Run) {
                 Err(_) => run.violation("long:panic", format!("the search thread for {} died", name), json!({"type": "long", "name": name, "heuristic": h, "modes": modes})),
             }
         }
+        long_steps.sort();
+        long_steps.dedup_by(|a, b| a.0 == b.0 && { b.1 = b.1.max(a.1); true });
+        run.extra("long_search_loop_steps", json!(long_steps.iter().map(|(n, s)| json!({"instance": n, "max_steps": s, "budget": long_budget(n.split(' ').find_map(|x| x.parse::<usize>().ok()).unwrap_or(0), n.contains("self-supporting"))})).collect::<Vec<_>>()));
         run.add_counts(total, runs, runs, runs);
         run.add_family(FamilyCov { name: format!("long searches (10-11 self-supporting statements: up to 2048 models, > 1024 learned nogoods of one size) and negation cycles with 64-257 undecided statements: {} instances on their own threads", total), size: total, done: total, exhaustive: true, note: format!("joined after {:.1}s of extra waiting", t0.elapsed().as_secs_f64()) });
     }
@@ -715,7 +732,7 @@ pub fn replay(c: &Value) -> Vec<(String, String)> {
         };
         let l = crate::large::LargeAdf { labels: labels.clone(), written: labels, conds, shape: "long" };
         let modes: Vec<bool> = c["modes"].as_array().map(|a| a.iter().map(|x| x.as_bool().unwrap_or(true)).collect()).unwrap_or_else(|| vec![true, false]);
-        return long_case(&l.text(None, ("", "", "")), n, &name, c["heuristic"].as_u64().unwrap_or(0) as usize, (400 * (1u64 << n.min(20))).max(2_000_000), &modes, &mut st);
+        return long_case(&l.text(None, ("", "", "")), n, &name, c["heuristic"].as_u64().unwrap_or(0) as usize, long_budget(n, name.contains("self-supporting")), &modes, &mut st);
     }
     if c["type"] == "bounded" {
         return bounded_case(&text, &tts, c["cap"].as_u64().unwrap_or(0) as usize, c["twoval"].as_bool().unwrap_or(false));
